@@ -1,9 +1,9 @@
 #!/bin/bash
 # Development aid: confirms a sub-agent's behaviour-preserving refactoring (builds, existing tests pass)
 # in its scratch worktree and stores it as /verif/benign/<id>-<i>/ (patch.diff, meta.json).
-# usage: benverify.sh C04 1      (worktree /tmp/ben/C04, results in /tmp/ben/C04-out); SKIP=regex to skip flaky tests
+# usage: [BENBASE=/tmp/ben2 BENOFFSET=5] benverify.sh C04 1   (worktree $BENBASE/C04, results in $BENBASE/C04-out); SKIP=regex to skip flaky tests
 set -u
-id=$1; i=$2; wt=/tmp/ben/$id; out=/tmp/ben/$id-out
+id=$1; i=$2; base=${BENBASE:-/tmp/ben}; wt=$base/$id; out=$base/$id-out
 export GOFLAGS=-mod=mod GOPROXY=off GOSUMDB=off GOTOOLCHAIN=local; unset GOWORK
 meta=$out/meta$i.json; mod=$(jq -r .module $meta)
 clean() { git -C $wt checkout -- . && git -C $wt clean -fdq; }
@@ -15,5 +15,5 @@ git -C $wt apply $out/patch$i.diff || fail "patch does not apply"
 (cd $wt/$mod && go build ./... ) || fail "does not build"
 (cd $wt/$mod && go test -vet=off -count=1 -timeout 25m ${SKIP:+-skip "$SKIP"} ./... >$out/verify$i.tests.log 2>&1) || { grep -E "^(--- FAIL|FAIL|panic)" $out/verify$i.tests.log | head -5; fail "existing tests fail"; }
 clean
-dst=/verif/benign/$id-$i; mkdir -p $dst && cp $out/patch$i.diff $dst/patch.diff && cp $meta $dst/meta.json
+dst=/verif/benign/$id-$((i+${BENOFFSET:-0})); mkdir -p $dst && cp $out/patch$i.diff $dst/patch.diff && cp $meta $dst/meta.json
 echo "BENVERIFY $id-$i CONFIRMED -> $dst"
